@@ -749,8 +749,8 @@ func (la *LockAnalysis) Reentries(fn *ssa.Function) []Reentry {
 			if len(held) == 0 {
 				continue
 			}
-			if key, acq, mode, ok := lockOp(ci); ok {
-				if acq && held[key] != NotHeld && !(held[key] == ReadHeld && mode == ReadHeld) {
+			if key, acq, _, ok := lockOp(ci); ok {
+				if acq && held[key] != NotHeld { // read inside read included: a writer waiting in between blocks the inner RLock for good
 					out = append(out, Reentry{ci, key, nil})
 				}
 				continue
@@ -759,8 +759,8 @@ func (la *LockAnalysis) Reentries(fn *ssa.Function) []Reentry {
 			if sc == nil {
 				continue
 			}
-			for k, m := range la.Acquires(sc) {
-				if held[k] != NotHeld && !(held[k] == ReadHeld && m == ReadHeld) {
+			for k := range la.Acquires(sc) {
+				if held[k] != NotHeld {
 					out = append(out, Reentry{ci, k, sc})
 				}
 			}
